@@ -1,1 +1,180 @@
+(* AdaptersProofs.v — invariants of the callback-adapter model for every valid configuration (adapter, outcome,
+   timing, storage, converter) and every schedule (induction over reachability). *)
 From Cocls Require Import Base BaseProofs AdaptersDefs.
+Require Import ZifyBool.
+Local Open Scope nat_scope.
+
+Inductive reachable (c : cfg) : st -> Prop :=
+| r_init : reachable c (init c)
+| r_step s i : reachable c s -> enabled s i = true -> reachable c (fst (tstep c s i)).
+
+Definition terminal (s : st) : Prop := all_enabled s = [].
+
+(* ---------- counting ---------- *)
+Fixpoint cnt (p : instr -> bool) (l : list instr) : nat :=
+  match l with [] => 0 | x :: t => (if p x then 1 else 0) + cnt p t end.
+
+Lemma cnt_app p a b : cnt p (a ++ b) = cnt p a + cnt p b.
+Proof. induction a as [|x a IH]; cbn [cnt app]; [reflexivity|rewrite IH; lia]. Qed.
+
+Definition N (p : instr -> bool) (s : st) : nat := cnt p (th0 s) + cnt p (th1 s).
+
+Definition p_claim (i : instr) := match i with IClaim | IDtorP => true | _ => false end.
+Definition p_dtor (i : instr) := match i with IDtorP => true | _ => false end.
+Definition p_res (i : instr) := match i with IResolve => true | _ => false end.
+Definition p_walk (i : instr) := match i with IWalk => true | _ => false end.
+Definition p_dtk (i : instr) := match i with IReady | ISub _ | IWalk => true | _ => false end.
+Definition p_park (i : instr) := match i with IPark => true | _ => false end.
+Definition p_xw (i : instr) := match i with IXWait => true | _ => false end.
+Definition p_cvA (i : instr) := match i with ICvClaim => true | _ => false end.
+Definition p_cvB (i : instr) := match i with ICvReady _ => true | _ => false end.
+Definition p_cvC (i : instr) := match i with ICvSet _ _ => true | _ => false end.
+Definition p_cvR (i : instr) := match i with ICvResolve => true | _ => false end.
+Definition p_cvW (i : instr) := match i with ICvWalk => true | _ => false end.
+Definition p_otk (i : instr) := match i with IOReady | IOSub _ | ICvWalk => true | _ => false end.
+
+Definition outcome_eqb (a b : outcome) : bool :=
+  match a, b with
+  | ONone, ONone => true | OCanc, OCanc => true
+  | OVal x, OVal y => Z.eqb x y | OExc x, OExc y => Z.eqb x y
+  | _, _ => false
+  end.
+Lemma outcome_eqb_eq a b : outcome_eqb a b = true -> a = b.
+Proof. destruct a, b; cbn; try discriminate; try reflexivity; intros H; apply Z.eqb_eq in H; congruence. Qed.
+Lemma outcome_eqb_refl a : outcome_eqb a a = true.
+Proof. destruct a; cbn; auto using Z.eqb_refl. Qed.
+
+Definition expected (c : cfg) : outcome := conv_result c (out_of (c_k c)).
+
+(* a converter-completion instruction whose thread-local values are not the ones the protocol guarantees *)
+Definition p_bad (c : cfg) (i : instr) : bool :=
+  match i with
+  | ICvReady g => negb g
+  | ICvSet g r => negb g || negb (outcome_eqb r (expected c))
+  | _ => false
+  end.
+
+Definition rdy (sl : slotv) : nat := match sl with SReady => 1 | _ => 0 end.
+Definition sub (sl : slotv) : nat := match sl with SSub => 1 | _ => 0 end.
+Definition b2n (b : bool) : nat := if b then 1 else 0.
+Definition is_val (k : rkind) : bool := match k with KVal _ => true | _ => false end.
+Definition hb (c : cfg) : nat := b2n (has_helper (c_ad c)).
+Definition cv (c : cfg) : nat := b2n (is_conv c).
+Definition atomic_cb (c : cfg) : bool := has_cb (c_ad c).
+
+(* the events of a completion with a user callback, all in step t *)
+Definition cb_log (c : cfg) (t : nat) : list (nat * ev) :=
+  map (fun e => (t, e))
+      ([ECb (out_of (c_k c)) (hb c) 0; ECbRet (hb c) 0]
+       ++ (if has_functor (c_ad c) then EFun (hb c) 0 :: (if c_stor c then [ESd] else []) else [])).
+
+Definition conv_log (c : cfg) (t : nat) : list (nat * ev) :=
+  match out_of (c_k c) with OVal v => [(t, EConv v (expected c))] | _ => [] end.
+
+Record Inv (c : cfg) (s : st) : Prop := {
+  i_claim : b2n (owner s) = N p_claim s;
+  i_res : rdy (slot s) + b2n (owner s) + N p_res s = 1;
+  i_pay : owner s = false -> payload s = out_of (c_k c);
+  i_dtk : nfire s + sub (slot s) + N p_dtk s = 1;
+  i_walk : N p_walk s <= rdy (slot s);
+  i_fired : nfire s <= rdy (slot s);
+  i_park : b2n (parked s) + cnt p_park (th0 s) = 0 -> cnt p_xw (th1 s) = 0;
+  i_xw : cnt p_xw (th0 s) = 0;
+  i_alloc : allocs s = hb c;
+  i_free : frees s = hb c * nfire s;
+  (* converter *)
+  i_stage : N p_cvA s + N p_cvB s + N p_cvC s + N p_cvR s + nores s = cv c * nfire s;
+  i_oprom : b2n (oprom s) + cv c * nfire s = cv c + N p_cvA s;
+  i_bad : N (p_bad c) s = 0;
+  i_nores : nores s = rdy (oslot s);
+  i_otk : ndeliv s + sub (oslot s) + N p_otk s = cv c;
+  i_cvw : N p_cvW s <= nores s;
+  i_opay : N p_cvR s + nores s >= 1 -> opayload s = expected c;
+  i_nconv : nconv s + (if is_val (c_k c) then N p_cvA s + N p_cvB s else 0) = (if is_val (c_k c) then cv c * nfire s else 0);
+  i_ndeliv : ndeliv s <= nores s;
+  i_pay0 : owner s = true -> payload s = ONone;
+  i_dtor : N p_dtor s = 0 \/ out_of (c_k c) = ONone
+}.
+
+Definition LogInv (c : cfg) (s : st) : Prop :=
+  exists t1 t2 t3,
+      log s = (if Nat.eqb (nconv s) 1 then conv_log c t1 else [])
+              ++ (if Nat.eqb (ndeliv s) 1 then [(t2, EODeliv (expected c))] else [])
+              ++ (if atomic_cb c && Nat.eqb (nfire s) 1 then cb_log c t3 else []).
+
+
+(* ---------- the invariant holds initially and is preserved by every step ---------- *)
+Lemma inv_init c : valid c = true -> Inv c (init c).
+Proof.
+  destruct c as [ad mode stor k ct cd]. unfold valid. cbn [c_mode c_stor c_ad is_mk].
+  intros V.
+  destruct mode as [|[|[|[|m]]]]; try (cbn in V; rewrite ?andb_false_r in V; discriminate);
+  destruct ad; try (cbn in V; rewrite ?andb_false_r in V; discriminate);
+  destruct k; constructor; cbn; try reflexivity; try lia; try congruence; try discriminate;
+  try (left; reflexivity); try (right; reflexivity).
+Qed.
+
+Ltac dflags s :=
+  repeat match goal with
+  | |- context[match owner s with _ => _ end] => let E := fresh "FO" in destruct (owner s) eqn:E
+  | |- context[if owner s then _ else _] => let E := fresh "FO" in destruct (owner s) eqn:E
+  | |- context[match slot s with _ => _ end] => let E := fresh "FS" in destruct (slot s) eqn:E
+  | |- context[match oslot s with _ => _ end] => let E := fresh "FOS" in destruct (oslot s) eqn:E
+  | |- context[ICvReady (oprom s)] => let E := fresh "FOP" in destruct (oprom s) eqn:E
+  | |- context[match c_ad ?c with _ => _ end] => let E := fresh "AD" in destruct (c_ad c) eqn:E
+  end.
+
+Ltac dpay s := match goal with |- context[match payload s with _ => _ end] => let E := fresh "FP" in destruct (payload s) eqn:E end.
+Ltac dth s := match goal with
+       | |- context[th0 s] => destruct (th0 s) as [|ins rest] eqn:T0; [discriminate|]
+       | |- context[th1 s] => destruct (th1 s) as [|ins rest] eqn:T0; [discriminate|]
+       end.
+Ltac fin0 := try reflexivity; try assumption; try lia; try congruence;
+  try (intros; lia); try (intros; congruence); try (intros; auto; fail);
+  try (left; lia); try (right; assumption); try (right; reflexivity);
+  try (intros; match goal with H : _ -> ?g |- ?g => apply H; lia end).
+Ltac fin := fin0;
+  try match goal with |- context[is_val (c_k ?c)] => let K := fresh "K" in destruct (c_k c) eqn:K; cbn [is_val out_of] in *; fin0 end.
+
+Ltac red1 := cbn [fst snd thr set_thr push tick set_src set_out set_cnt add_log owner parked slot payload oprom oslot opayload allocs frees th0 th1 clk nfire nconv ndeliv nores log app].
+Ltac redc := cbn [cnt p_claim p_dtor p_res p_walk p_dtk p_park p_xw p_cvA p_cvB p_cvC p_cvR p_cvW p_otk p_bad negb orb andb
+                  b2n rdy sub Nat.add has_helper has_functor has_cb is_conv].
+Ltac redch := cbn [cnt p_claim p_dtor p_res p_walk p_dtk p_park p_xw p_cvA p_cvB p_cvC p_cvR p_cvW p_otk p_bad negb orb andb
+                  b2n rdy sub Nat.add] in *|-.
+
+Ltac paystep c s I3 := match goal with
+       | FS : slot s = SReady |- _ =>
+           assert (PAY : payload s = out_of (c_k c)) by (apply I3; destruct (owner s); [cbn in *; lia|reflexivity])
+       end.
+
+Lemma inv_step c s i : Inv c s -> enabled s i = true -> Inv c (fst (tstep c s i)).
+Proof.
+  intros I E. unfold tstep, enabled in *.
+  destruct I as [I1 I2 I3 I4 I5 I6 I7 I8 I9 I10 I11 I12 I13 I14 I15 I16 I17 I18 I19 I20 I21].
+  unfold N in *.
+  assert (CV : cv c <= 1) by (unfold cv, b2n; destruct (is_conv c); lia).
+  assert (CVN : cv c * nfire s <= 1).
+  { assert (nfire s <= 1) by (destruct (slot s); cbn [rdy] in I6; lia). unfold cv, b2n; destruct (is_conv c); lia. }
+  destruct i as [|[|i]]; cbn [thr] in *; [| |discriminate].
+  all: dth s.
+  all: destruct ins; unfold exec, fire, deliver.
+  all: red1; dflags s; red1.
+  all: redch.
+  all: try paystep c s I3.
+  all: try (dpay s; red1).
+  all: try match goal with
+       | H : context[outcome_eqb ?r ?e] |- _ =>
+           let Q := fresh "Q" in destruct (outcome_eqb r e) eqn:Q; [apply outcome_eqb_eq in Q; subst r|]; redch
+       end.
+  all: try match goal with g : bool |- _ => destruct g; redch end.
+  all: try (rewrite FP in PAY; try rewrite <- PAY in * ).
+  all: try (specialize (I20 eq_refl)).
+  all: try (specialize (I3 eq_refl)).
+  all: try (destruct I21 as [I21|I21]).
+  all: try (unfold hb, cv, is_conv in *; rewrite AD in *; cbn [has_helper b2n Nat.mul] in * ).
+  all: constructor; unfold N; red1; try (unfold hb, cv, is_conv; rewrite AD; cbn [has_helper b2n Nat.mul]); redc; unfold expected in *; try rewrite <- PAY in *; cbn [conv_result]; rewrite ?outcome_eqb_refl; redc.
+  all: fin.
+Qed.
+
+Theorem inv_reachable c s : valid c = true -> reachable c s -> Inv c s.
+Proof. intros V R. induction R; [apply inv_init; exact V|apply inv_step; assumption]. Qed.
